@@ -153,14 +153,25 @@ fn dump_qbvh(t: &mut Tok, pl: &parry2d_f64::shape::Polyline) {
 
 fn one(rng: &mut Rng) {
     let pts = polyline(rng);
-    let Ok(c) = Curve2::from_points(&pts, 1e-9, false) else { return };
+    // the same outlines a hundred to a hundred thousand times smaller (a finely sampled small feature: edges of tens of
+    // nanometres to micrometres), cut by lines of ordinary direction length: |dir|·|edge| is then small although every
+    // crossing is as transversal as before
+    let f = if rng.chance(0.3) { *rng.pick(&[1e-2, 1e-3, 1e-4, 1e-5]) } else { 1.0 };
+    let pts: Vec<Point2> = if f == 1.0 { pts } else { pts.iter().map(|p| Point2::from(p.coords * f)).collect() };
+    let Ok(c) = Curve2::from_points(&pts, 1e-9 * f, false) else { return };
     let v_ = c.points().to_vec();
     let pl = parry2d_f64::shape::Polyline::new(v_.clone(), None);
     let n = v_.len();
     let scale = 1.0 + v_.iter().map(|p| p.coords.norm()).fold(0.0, f64::max);
     let nl = if n > 1000 { 2 } else { 6 };
     for _ in 0..nl {
-        let ray = line(rng, &v_);
+        let ray = if f == 1.0 {
+            line(rng, &v_)
+        } else {
+            let un: Vec<Point2> = v_.iter().map(|p| Point2::from(p.coords / f)).collect();
+            let r = line(rng, &un);
+            Ray2::new(Point2::from(r.origin.coords * f), r.dir)
+        };
         let hits = match guarded(|| c.ray_intersections(&ray)) {
             Ok(h) => h,
             Err(e) => {
@@ -183,7 +194,9 @@ fn one(rng: &mut Rng) {
         for k in 0..n - 1 {
             let e = v_[k + 1] - v_[k];
             let det = e.x * ray.dir.y - e.y * ray.dir.x;
-            if det.abs() < 1e-6 * e.norm() * dn {
+            // (the second bound: the per-edge routine treats a raw determinant below 1e-12 as parallel whatever the
+            // lengths involved; crossings within a decade of that floor are left unjudged)
+            if det.abs() < 1e-6 * e.norm() * dn || det.abs() < 1e-11 {
                 continue;
             }
             let dx = v_[k].x - ray.origin.x;
